@@ -580,6 +580,32 @@ def enumerate_all(h, tmp):
         run_class(cx, cls, f"K{ci}", init_params, mname, mk, mparams, salt + ci + 1, path=(f"K{ci}",), wrapper=[other, cls], few=True)
         run_class(cx, cls, f"K{ci}", init_params, mname, mk, mparams, salt + ci + 2, path=("g", "k"), wrapper={"g": {"k": cls, "o": other}}, few=True)
 
+    # ---- family 6b: a class-level config that also holds the settings of a method other than the one chosen on the command line; the chosen
+    # method may have no parameters at all (its own section is then empty): each call still gets exactly its own parameters
+    for ci in range(12 if h.thorough else 6):
+        init_params = sig_pool(1 + ci % 2, ci * 13 + 5)
+        other_params = sig_pool(1 + ci % 3, ci * 17 + 7)
+        chosen_params = [] if ci % 2 == 0 else sig_pool(1, ci * 19 + 1)
+        cls = make_class(f"Z{ci}", init_params, [("build", "plain", other_params), ("clean", "plain", chosen_params)])
+        for as_pos in (True, False):
+            for form in ("str", "file"):
+                salt += 1
+                li = Level(init_params, ["cfg"] * len(init_params), cx.pick_vals(init_params, ["cfg"] * len(init_params), salt))
+                lo = Level(other_params, ["cfg"] * len(other_params), cx.pick_vals(other_params, ["cfg"] * len(other_params), salt + 1))
+                lc = Level(chosen_params, ["omit" if not p.required else "argv" for p in chosen_params], cx.pick_vals(chosen_params, ["omit" if not p.required else "argv" for p in chosen_params], salt + 2))
+                ri, ro, rc = li.render(as_pos, "=", tokens_follow=True), lo.render(as_pos, "=", tokens_follow=False), lc.render(as_pos, "=", tokens_follow=False)
+                if ri is None or ro is None or rc is None or not ro[2]:
+                    continue
+                cfg = dict(ri[2])
+                cfg["build"] = ro[2]
+                argv = [cx.run.config_opt(cfg, form), "clean"] + rc[0] + rc[1]
+                ei, ec = li.expected(), lc.expected()
+                exp = [(f"Z{ci}.__init__", init_params, ei), (f"Z{ci}.clean", chosen_params, ec)] if ei is not None and ec is not None else None
+                sources, given = src_descr([li, lc])
+                descr = f"init({describe(init_params)}).clean({describe(chosen_params)})+config-section-of-build({describe(other_params)})"
+                check_run(cx, "class", descr, cls, argv, as_pos, exp, [f"Z{ci}.__init__", f"Z{ci}.clean"], {"plan": f"{'pos' if as_pos else 'opt'}:cfg-also-holds-another-method", "sources": sources, "given": given})
+                cx.h.nontrivial(("class-other-method-section", descr, as_pos, form))
+
     # ---- family 7: classes without public methods (the instance is the result) and inherited methods
     for ci in range(nclasses // 3):
         init_params = sig_pool(ci % 3 + 1, ci * 5 + 1)
